@@ -398,6 +398,9 @@ func c20Reject(w *W) {
 		{"--pull", "--bind", addr, "--raw", "--ascii"},                   // two formats
 		{"--pull", "--bind", addr, "--format", "bogus"},                  // unknown format
 		{"--push", "--bind", addr, "--subscribe", "t", "--data", "x"},    // subscribe without SUB
+		{"--subscribe", "t", "--push", "--bind", addr, "--data", "x"},    // the same, options in another order
+		{"--subscribe=t", "--bind", addr, "--pull"},                      // protocol given last
+		{"--bind", addr, "--subscribe", "t", "--rep", "--data", "x"},
 		{"--push", "--bind", addr, "--data", "x", "extra"},               // extra argument
 		{"--push", "--bind", "no-scheme", "--data", "x"},                 // malformed address
 		{"--push", "--bind", addr},                                       // nothing to send
